@@ -15,6 +15,13 @@ Two-pass protocol (float text, JSON string escaping and time.Duration text are N
            F strconv.FormatFloat(f,'f',-1,64); J encoding/json.Marshal(string); D time.Duration.String() - with the
            float bits / bytes the MODEL computed, compares with the observed bytes (MISMATCH lines) and checks the two
            hypotheses of theorem C19_json_valid on every rendered value (PFAIL lines).
+
+Call patterns of the entry points (same pipeline, lines A / AP / AF / AC / B / BF of harness/genrun/render_c19.go):
+results RETAINED by the caller across further renderings of other messages / states (sequentially and while 4 goroutines
+render concurrently) must still be the rendering they were when returned; a message rendered twice gives the same bytes;
+rendering leaves the message unchanged; Append* onto a non-empty prefix with or without spare capacity returns
+prefix ++ text and leaves the caller's prefix alone (model: append_to, theorems C19_append_*). A second, short run of the
+same observations under the Go race detector (-race build of the runner) must report no data race.
 """
 import json
 import os
@@ -36,14 +43,28 @@ PROPERTIES = {
                 "(C09 model) of that raw value; unit / matching value description appear exactly when defined (per format: "
                 "stated precisely); the JSON rendering is in the RFC 8259 grammar provided FormatFloat('f') of a finite "
                 "float is a JSON number and json.Marshal(string) a JSON string; candebug serves the first message named "
-                "like the last path element, else all. Pre-fix uintToJSON is refuted (F7). Model tied to the code by "
-                "rendering every message of a seeded batch of generated packages in extreme + random states.",
+                "like the last path element, else all. Pre-fix uintToJSON is refuted (F7). Every cantext.Append* call returns "
+                "the caller's buffer followed by a text that does not depend on the buffer (so the caller's prefix is "
+                "kept), only AppendFrame can fail; Marshal/MarshalCompact are chains of such appends over one buffer. Model "
+                "tied to the code by rendering every message of a seeded batch of generated packages in extreme + random "
+                "states, once and repeatedly, with results retained across later calls, from several goroutines, and onto "
+                "caller-provided prefixes.",
         "note": "Trusted: Coq 8.16.1 kernel; extraction (ExtrOcamlBasic) + OCaml 4.13.1; the hand-written models Gen/Render.v, "
                 "Gen/Message.v, Descriptor/Signal.v, Descriptor/Physical.v (Flocq binary64), validated against the code by "
                 "this run; NOT modelled and executed by the Go side on the model's values: strconv.AppendFloat/FormatFloat, "
                 "encoding/json string escaping and Number validation, time.Duration.String, net/http(test), path.Base is "
                 "modelled. Print Assumptions: the theorems that mention float64 values inherit Flocq's use of the stdlib "
-                "real-number axioms (whitelisted); the others are closed under the global context.",
+                "real-number axioms (whitelisted); the others are closed under the global context. "
+                "'The []byte / string a renderer returns is not shared with later calls' (no aliasing of a pooled or global "
+                "buffer, sequentially or between goroutines) is a property of Go memory, outside the functional model: "
+                "for the model it is trivially true, renderings are values (C19_renderings_are_values). It is observed on "
+                "every run by the 'A'/'AP'/'AC' lines: every value returned by Marshal, MarshalCompact, MessageString, "
+                "String(), canjson.Marshal, Append*(nil, ...) and every HTTP response body is retained while the other "
+                "messages / states of the package are rendered, 4 goroutines render concurrently, and every item is rendered "
+                "again; at the end each retained value must equal the copy taken when it was returned, and the harness is "
+                "also run under the Go race detector. Likewise 'Append* does not write to the caller's prefix' is observed "
+                "on the caller's backing array ('B'/'BF' lines); the model states the functional part (result = prefix ++ "
+                "text, C19_append_only_appends).",
         "technique": "Coq proof about a Gallina model + two-pass differential correspondence against generated, compiled Go code",
         "design_ref": "5.19",
     },
@@ -82,6 +103,62 @@ def batch_with_all_widths(seed, count, orig=genprogs.gen_batch):
     return progs
 
 
+def _start_race_run(scratch, seed, keep):
+    """Second, short run of the same observations with a -race build of the runner (the overlay is the one
+    gen.prepare_batch wrote). Started in the background; _finish_race_run collects it. Output is discarded:
+    only the race detector's verdict is of interest here (its text goes to stderr, exit code 66)."""
+    ov = os.path.join(scratch, "overlay-genrun.json")
+    exe = os.path.join(scratch, "harness-genrun-race")
+    cmd = ("cd %s && timeout 600 go build -race -overlay %s -o %s ./cmd/verif_genrun 2>%s/race-build.log || exit 97; "
+           "GORACE='halt_on_error=0 exitcode=66' timeout 600 %s render %d 1 2 %d >/dev/null"
+           % (vlib.REPO, ov, exe, scratch, exe, seed, keep))
+    try:
+        return subprocess.Popen(["bash", "-c", cmd], stdout=subprocess.DEVNULL, stderr=subprocess.PIPE, text=True, env=vlib.go_env())
+    except OSError:
+        return None
+
+
+def _finish_race_run(res, race, scratch, seed):
+    if race is None:
+        res.cov["race_detector_run"] = "not started"
+        return
+    try:
+        _, err = race.communicate(timeout=900)
+    except subprocess.TimeoutExpired:
+        race.kill()
+        res.cov["race_detector_run"] = "timed out (not counted)"
+        return
+    if race.returncode == 97:
+        # no race-enabled toolchain (cgo) on this machine: say so, do not fail
+        log = ""
+        try:
+            log = open(os.path.join(scratch, "race-build.log")).read()[-400:]
+        except OSError:
+            pass
+        res.cov["race_detector_run"] = "race build unavailable: " + log
+        return
+    n = err.count("WARNING: DATA RACE")
+    res.cov["race_detector_run"] = {"data_races": n, "exit_code": race.returncode}
+    if n or race.returncode == 66:
+        first = err[err.find("WARNING: DATA RACE"):][:3500]
+        res.violation("a returned rendering changed after later calls (concurrent): the Go race detector reports %d data race(s) "
+                      "between goroutines that render different message values" % n,
+                      {"how": "runner built with `go build -race` (harness/genrun, mode render, seed %d): 4 goroutines, each with its own "
+                              "message values, call cantext.Marshal / MarshalCompact / MessageString / canjson.Marshal / AppendSignal and "
+                              "read the returned values again after yielding" % seed,
+                       "race_report": first})
+    elif race.returncode != 0:
+        res.violation("race-detector run of the runner failed (rc=%s)" % race.returncode, {"stderr": err[-2000:]}, no_input=True)
+
+
+_CALL_PATTERN = {
+    "A": "the value returned is kept by the caller while the other (message, state) items of the package are rendered, 4 goroutines "
+         "render concurrently, every item is rendered a second time ('#2') and the debug pages are served; compared at the end",
+    "AC": "4 goroutines, each with its own message values, render their items concurrently and keep every result until all are done",
+    "B": "called with buf = the given prefix in a backing array with `spare` bytes of spare capacity",
+}
+
+
 def _hex_text(h):
     if h in ("-", "", "E"):
         return h
@@ -95,7 +172,7 @@ def run(res, replay=None):
     vlib.proof_stage(res)
     quick = res.tier == "quick"
     count = 12 if quick else 60
-    states, pages = (10, 24) if quick else (300, 400)
+    states, pages, keep = (10, 24, 4) if quick else (300, 400, 40)
     scratch = vlib.scratch_dir()
     try:
         orig = genprogs.gen_batch
@@ -115,8 +192,9 @@ def run(res, replay=None):
             res.violation("segment renderer (harness/render) does not build", {"build_log": log[-3000:]}, no_input=True)
             return
         drv = vlib.build_driver("render")
-        cmd = ("ulimit -v 8000000; set -o pipefail; timeout 1500 %s render %d %d %d | timeout 1500 %s %s | timeout 1500 %s"
-               % (exe, res.seed, states, pages, drv, os.path.join(scratch, "exp"), rexe))
+        cmd = ("ulimit -v 8000000; set -o pipefail; timeout 1500 %s render %d %d %d %d | timeout 1500 %s %s | timeout 1500 %s"
+               % (exe, res.seed, states, pages, keep, drv, os.path.join(scratch, "exp"), rexe))
+        race = _start_race_run(scratch, res.seed, 2 if quick else 20)
         p = subprocess.run(["bash", "-c", cmd], stdout=subprocess.PIPE, stderr=subprocess.PIPE, text=True)
         stats = rstats = cov = None
         texts = {n: t for n, t, _, _ in progs}
@@ -134,13 +212,32 @@ def run(res, replay=None):
                 toks = obs.split()
                 tag = toks[0]
                 parts = tag.split(":")
-                pkg = parts[1] if len(parts) > 1 and parts[0] in ("R", "P") else (toks[1] if len(toks) > 1 else "?")
+                pkg = parts[1] if len(parts) > 1 and parts[0] in ("R", "RR", "P", "A", "AP", "AF", "AC", "B") else (toks[1] if len(toks) > 1 else "?")
                 rep = {"dbc": texts.get(pkg, ""), "observation": obs[:4000], "detail": detail[:4000]}
-                if parts[0] == "R" and len(parts) >= 5:
+                if parts[0] in ("R", "RR") and len(parts) >= 5:
                     rep.update({"package": pkg, "message_index": int(parts[2], 16), "payload": parts[3], "renderer": parts[4],
-                                "how": "fresh message, Reset(), UnmarshalFrame({ID, Length, IsExtended of the message, Data: payload}), then the renderer"})
-                if parts[0] == "P" and len(parts) >= 4:
+                                "how": ("fresh message" if parts[0] == "R" else "a message instance that was rendered before in another state") +
+                                       ", Reset(), UnmarshalFrame({ID, Length, IsExtended of the message, Data: payload}), then the renderer"})
+                if parts[0] in ("P", "AP") and len(parts) >= 4:
                     rep.update({"package": pkg, "url_path": _hex_text(parts[2]), "entries(wrapper:message index:payload)": parts[3]})
+                if parts[0] in ("A", "AC", "B") and len(parts) >= 6:
+                    rep.update({"package": pkg, "message_index": int(parts[2], 16), "payload": parts[3], "signal_index": parts[4],
+                                "renderer": parts[5],
+                                "how": "fresh message, Reset(), UnmarshalFrame({ID, Length, IsExtended of the message, Data: payload}), then "
+                                       "the renderer; " + _CALL_PATTERN[parts[0]]})
+                if parts[0] == "AF" and len(parts) >= 4:
+                    rep.update({"package": pkg, "message_index": int(parts[2], 16), "payload": parts[3]})
+                if parts[0] == "BF" and len(parts) >= 3:
+                    rep.update({"frame(id,length,extended,remote,data)": parts[1], "prefix": parts[2], "renderer": "cantext.AppendFrame(prefix, frame)"})
+                for t in toks[1:]:
+                    k, eq, v = t.partition("=")
+                    if eq and k in ("copy", "now", "prefix_after", "results"):
+                        rep[{"copy": "text_when_returned", "now": "text_held_at_the_end", "prefix_after": "caller_prefix_after_the_call",
+                             "results": "distinct_texts_seen"}[k]] = ", ".join(_hex_text(x) for x in v.split(","))
+                    elif eq and k in ("later", "calls", "spare", "before", "after"):
+                        rep[k] = v
+                    elif eq and k == "prefix":
+                        rep["prefix_hex"] = v
                 o = [t for t in toks if t.startswith("obs=")]
                 if o:
                     rep["implementation_text"] = _hex_text(o[0][4:])
@@ -150,8 +247,16 @@ def run(res, replay=None):
                         if kind == "MISMATCH" else "property clause fails on the implementation's output")
                 n_viol += 1
                 if n_viol <= 8:
-                    res.violation("%s: %s impl=%r model=%r" % (what, tag[:120], rep.get("implementation_text", "")[:200],
-                                                                rep.get("model_text", detail)[:200]), rep)
+                    if "text_when_returned" in rep:
+                        res.violation("%s: %s %s returned=%r now=%r" % (what, tag[:120], detail[:160], rep["text_when_returned"][:200],
+                                                                         rep.get("text_held_at_the_end", "")[:200]), rep)
+                    elif kind == "PFAIL" and ("distinct_texts_seen" in rep or "caller_prefix_after_the_call" in rep or parts[0] == "AF"):
+                        res.violation("%s: %s %s %s" % (what, tag[:120], detail[:200],
+                                                        rep.get("distinct_texts_seen", rep.get("caller_prefix_after_the_call", ""))[:300]), rep)
+                    else:
+                        res.violation("%s: %s impl=%r model=%r" % (what, tag[:120], rep.get("implementation_text", "")[:200],
+                                                                    rep.get("model_text", detail)[:200]), rep)
+        _finish_race_run(res, race, scratch, res.seed)
         if p.returncode != 0 or stats is None or rstats is None:
             res.violation("runner, model driver or segment renderer failed (rc=%s)" % p.returncode,
                           {"stderr": p.stderr[-3000:], "stdout_tail": p.stdout[-800:]}, no_input=True)
@@ -161,8 +266,12 @@ def run(res, replay=None):
             "evaluations": rstats["renderings_compared"],
             "distinct_nontrivial": stats["distinct_nontrivial"],
             "rule": "one evaluation = one rendered byte string (Marshal, MarshalCompact, MessageString, String(), canjson.Marshal of "
-                    "one message state, or one candebug response body) compared with the model; distinct_nontrivial = distinct "
-                    "(message, payload) states with at least one signal + distinct (path, served list) pages, by line hash",
+                    "one message state, one candebug response body; A: a retained result of these or of Append*(nil,..), first and "
+                    "second rendering of the same value; AC: a distinct result of a concurrent rendering; B/BF: Append* onto a "
+                    "caller's prefix) compared with the model; additionally every A/AP line compares the retained value with the "
+                    "copy taken when it was returned, AF the message's frame before/after, B/BF the caller's prefix after the call; "
+                    "distinct_nontrivial = distinct (message, payload) states with at least one signal + distinct (path, served "
+                    "list) pages + distinct call-pattern observations, by line hash",
             "states_and_pages": stats["cases"],
             "kinds": stats["kinds"],
             "samples": [s[:300] for s in stats["samples"][:4]],
@@ -182,6 +291,8 @@ def run(res, replay=None):
             "hypotheses of C19_json_valid (FormatFloat 'f' of a finite float is a JSON number; json.Marshal of a string is a JSON string) "
             "are checked on every rendered value of the run, and json.Valid on every canjson.Marshal output",
             "the DBC program generator (checks/genprogs.py) emits programs of DESIGN.md 4.3 together with the database they denote",
+            "aliasing of returned buffers and writes to a caller's prefix are facts about Go memory: observed (retained values compared at the "
+            "end of each package, sequentially + 4 goroutines; race-detector run), not modelled",
             "debug page: only zero ReceiveTime/TransmitTime (\"never\"); the optional interfaces are provided by wrappers of the "
             "generated message types (the shape of the generated <Node>_Rx_/<Node>_Tx_ types)",
         ]
